@@ -7,7 +7,7 @@ use proptest::strategy::Strategy;
 use serde::{Deserialize, Serialize};
 use serde_json::json;
 
-pub const RULE: &str = "case = (game, depth 8-11, hash 1/2/3/16 MB, 0-2 earlier searches). The unstopped search is run once with hook H1 counting the polls of the stop flag -> N. Then for every k = 1..N (all k when N <= 24, else 1, 2, N-1, N and 12 generated indices) the search is repeated from an identically prepared state with the flag made to read true from the k-th poll on. Oracle: no panic; the move returned is in the reference legal set; the total number of polls equals k (any node examined after the stop was observed would poll again); every line reported before the stop passes the C08 oracle; the Game passed in is unchanged; a follow-up search (unstopped, depth 3-5, same state, same or successor position) passes the complete C08 oracle and returns a legal move. A second family calls the real Control::stop() from another thread after a generated delay. Non-trivial = k strictly inside an iteration (not the between-iterations poll); distinct by (case, k).";
+pub const RULE: &str = "case = (game, depth 8-11, hash 1/2/3/16 MB, 0-2 earlier searches). The unstopped search is run once with hook H1 counting the polls of the stop flag -> N. Then for every k = 1..N (all k when N <= 24, else 1, 2, N-1, N and 12 generated indices) the search is repeated from an identically prepared state with the flag made to read true from the k-th poll on. Oracle: no panic; the move returned is in the reference legal set; the total number of polls equals k (any node examined after the stop was observed would poll again); every line reported before the stop passes the C08 oracle; the Game passed in is unchanged; a follow-up search (unstopped, depth 3-5, same state, same or successor position) passes the complete C08 oracle and returns a legal move. A second family calls the real Control::stop() from another thread after a generated delay; a third ends the search by an expired fixed move time of 0-20 ms instead of a stop request. Non-trivial = k strictly inside an iteration (not the between-iterations poll); distinct by (case, k).";
 
 #[derive(Serialize, Deserialize, Clone, Debug)]
 pub enum Case {
@@ -86,6 +86,17 @@ fn run_built(b: &Built, ks_explicit: Option<&[u64]>, delays: Option<&[u64]>, mut
     let Some((pos, game)) = build(&b.main) else { return Ok(()) };
     if pos.legal_moves().is_empty() {
         return Ok(());
+    }
+    if let Limit::MoveTime(ms) = b.main.limit {
+        // replay form of the expired-limit family
+        st.eval();
+        let Some(mut state) = prepare(b) else { return Ok(()) };
+        let out = run_search(&game, &mut state, &b.main.limit, 0).map_err(|pm| Fail::new(&format!("stopped_search_panic:{}", panic_signature(&pm)), format!("search with movetime {ms} panicked: {pm}")))?;
+        if !legal_in(&pos, out.best) {
+            return Err(Fail::new("stopped:bestmove_illegal", format!("search at {} with movetime {ms} returned illegal {:?}", pos.to_fen(), out.best)));
+        }
+        check_reports(&pos, &out.infos, None, st)?;
+        return check_followup(b, &mut state, st, &format!("a search ended by movetime {ms}"));
     }
     let Limit::Depth(depth) = b.main.limit else { return Ok(()) };
     let ex = |ks: Vec<u64>, ds: Vec<u64>| json!({"Explicit": {"hash_mb": b.hash_mb, "priors": b.priors, "main": b.main, "ks": ks, "followup": b.followup, "stopper_delays_us": ds}});
@@ -169,6 +180,25 @@ fn run_built(b: &Built, ks_explicit: Option<&[u64]>, delays: Option<&[u64]>, mut
         }
         check_reports(&pos, &out.infos, Some(depth), st).map_err(|f| f.explicit(exd()))?;
         check_followup(b, &mut state, st, &format!("Control::stop() after {d} us")).map_err(|f| f.explicit(exd()))?;
+    }
+    // an expired limit instead of a stop request: tiny fixed move times end the search at whatever
+    // poll first sees the limit exceeded
+    if ks_explicit.is_none() {
+        let t = t.as_mut().unwrap();
+        for _ in 0..2 {
+            let ms = [0u32, 1, 3, 8, 20][t.pick(5)];
+            st.eval();
+            st.class("expired_movetime_limit");
+            let Some(mut state) = prepare(b) else { return Ok(()) };
+            let exm = || json!({"Explicit": {"hash_mb": b.hash_mb, "priors": b.priors, "main": SearchSpec { fen: b.main.fen.clone(), moves: b.main.moves.clone(), limit: Limit::MoveTime(ms) }, "ks": [], "followup": b.followup, "stopper_delays_us": []}});
+            let out = run_search(&game, &mut state, &Limit::MoveTime(ms), 0)
+                .map_err(|pm| Fail::new(&format!("stopped_search_panic:{}", panic_signature(&pm)), format!("search at {} with movetime {ms} panicked: {pm}", pos.to_fen())).explicit(exm()))?;
+            if !legal_in(&pos, out.best) {
+                return Err(Fail::new("stopped:bestmove_illegal", format!("search at {} with movetime {ms} returned illegal {:?}", pos.to_fen(), out.best)).explicit(exm()));
+            }
+            check_reports(&pos, &out.infos, None, st).map_err(|f| f.explicit(exm()))?;
+            check_followup(b, &mut state, st, &format!("a search ended by movetime {ms}")).map_err(|f| f.explicit(exm()))?;
+        }
     }
     Ok(())
 }
